@@ -310,7 +310,9 @@ type c01child struct {
 func c01spawn(base, mode, dir, refFile, outFile string, crashAt int, logFile string) c01child {
 	cwd, _ := os.MkdirTemp(base, "cwd")
 	defer os.RemoveAll(cwd)
-	cmd := exec.Command(os.Args[0], "-test.run", "^TestVerif_C01_Child$", "-test.timeout", "120s")
+	// generous: a child needs a few seconds on an idle machine, but the machine may be heavily shared and a
+	// child that hits this limit cannot be told from a recovery that hangs (reported as recovery-process-died)
+	cmd := exec.Command(os.Args[0], "-test.run", "^TestVerif_C01_Child$", "-test.timeout", "900s")
 	cmd.Dir = cwd
 	env := []string{}
 	for _, e := range os.Environ() {
@@ -454,7 +456,7 @@ func c01check(r *vh.Run, base, dir, refFile string, ref *c01Ref, cs c01case, old
 	b, err := os.ReadFile(outFile)
 	os.Remove(outFile)
 	if err != nil {
-		r.Violationf("recovery-process-died:"+c01labelClass(cs.Label)+c01bandSuffix(cs), cs, "history %s crash at point %d (%s, %s): the reopening process died: %v\n%s", cs.History, cs.CrashAt, cs.Label, cs.Phase, ch.err, tail(ch.out, 1500))
+		r.Violationf("recovery-process-died:"+c01labelClass(cs.Label)+c01bandSuffix(cs), cs, "history %s crash at point %d (%s, %s): the reopening process died: %v\n%s", cs.History, cs.CrashAt, cs.Label, cs.Phase, ch.err, c01headTail(ch.out, 700, 1200))
 		return nil, false
 	}
 	rep = &c01Report{}
@@ -522,6 +524,13 @@ func c01bandSuffix(cs c01case) string {
 	return ""
 }
 
+func c01headTail(s string, h, t int) string {
+	if len(s) <= h+t {
+		return s
+	}
+	return s[:h] + "\n...\n" + s[len(s)-t:]
+}
+
 func tail(s string, n int) string {
 	if len(s) > n {
 		return s[len(s)-n:]
@@ -529,22 +538,20 @@ func tail(s string, n int) string {
 	return s
 }
 
+// c01histories: the large-block histories come first (see c01large): only the crash points of the large
+// blocks themselves are explored in them, the small blocks around them give the old state and the
+// following block; their few points are spread over ALL shards, the small histories are divided among
+// the shards as before.
 func c01histories(r *vh.Run) []string {
-	// large-block histories (see c01large): only the crash points of the large blocks themselves are
-	// explored in them, the small blocks around them give the old state and the following block
 	if r.Quick() {
-		return []string{"tge", "dft", "eet", "gdd", "tHg"}
+		return []string{"tHg", "tge", "dft", "eet", "gdd"}
 	}
-	var hs []string
+	hs := []string{"tHg", "BHe", "dtB"}
 	kinds := "etgdf"
 	for _, a := range kinds {
 		for _, b := range kinds {
 			for _, c := range kinds {
 				hs = append(hs, string([]rune{a, b, c}))
-				if len(hs) == 4 {
-					// early in the order, so that their shards reach them before the deadline
-					hs = append(hs, "tHg", "BHe", "dtB")
-				}
 			}
 		}
 	}
@@ -575,26 +582,35 @@ func TestVerif_C01(t *testing.T) {
 			nlarge++
 		}
 	}
-	r.Bound(fmt.Sprintf("%d histories (%d of them with a large block: crash points of the large blocks only); 1 crash at every point; second crash inside recovery/continuation: %v (first four histories only)", len(hists), nlarge, twoCrash))
+	r.Bound(fmt.Sprintf("%d histories (%d of them with a large block: crash points of the large blocks only); 1 crash at every point; second crash inside recovery/continuation: %v (first four small histories only)", len(hists), nlarge, twoCrash))
 	work := 0
-	nh := len(hists)
-	for hi, hist := range hists {
+	nh := len(hists) - nlarge // small histories
+	hi := -1                  // index among the small histories
+	for _, hist := range hists {
 		if r.Expired() {
 			break
 		}
-		// a shard prepares (reference + count run) only the histories it has points of:
-		// shard s owns history hi iff hi ≡ s (mod min(nshards, nh)); within a history the
-		// points are split among the shards owning it.
-		groups := r.R.NShards
-		if groups > nh {
-			groups = nh
-		}
-		if !replay && hi%groups != r.R.Shard%groups {
-			continue
-		}
-		sub, nsub := r.R.Shard/groups, (r.R.NShards+groups-1-(r.R.Shard%groups))/groups
-		if nsub < 1 {
-			nsub = 1
+		largeHist := strings.ContainsAny(hist, "BH")
+		var sub, nsub int
+		if largeHist {
+			// every shard prepares the large-block histories and takes every nshards-th of their points
+			sub, nsub = r.R.Shard, r.R.NShards
+		} else {
+			hi++
+			// a shard prepares (reference + count run) only the small histories it has points of:
+			// shard s owns small history hi iff hi ≡ s (mod min(nshards, nh)); within a history the
+			// points are split among the shards owning it.
+			groups := r.R.NShards
+			if groups > nh {
+				groups = nh
+			}
+			if !replay && hi%groups != r.R.Shard%groups {
+				continue
+			}
+			sub, nsub = r.R.Shard/groups, (r.R.NShards+groups-1-(r.R.Shard%groups))/groups
+			if nsub < 1 {
+				nsub = 1
+			}
 		}
 		hbase, _ := os.MkdirTemp(base, "h"+hist)
 		ref := c01buildRef(filepath.Join(hbase, "ref"), hist)
@@ -611,7 +627,6 @@ func TestVerif_C01(t *testing.T) {
 		os.RemoveAll(cdir)
 		pts := c01readLog(logFile)
 		r.Need(len(pts) >= 10*len(hist), "history %s has only %d crash points", hist, len(pts))
-		largeHist := strings.ContainsAny(hist, "BH")
 		largePhase := map[string]string{}
 		for bi := 0; bi < len(hist); bi++ {
 			rec := ref.Records[bi]
@@ -640,7 +655,7 @@ func TestVerif_C01(t *testing.T) {
 		} else {
 			r.Add("crash_points", int64(len(pts)))
 		}
-		if hi == 0 {
+		if hi == 0 && !largeHist {
 			var lab []string
 			for _, p := range pts {
 				if p.Phase == "block 1" {
@@ -649,6 +664,9 @@ func TestVerif_C01(t *testing.T) {
 			}
 			r.Set("points_in_one_block", lab)
 			r.Sample(map[string]interface{}{"history": hist, "points": len(pts), "example_point": pts[len(pts)/2]})
+		}
+		if largeHist {
+			work = 0
 		}
 		for _, p := range pts {
 			if largeHist && largePhase[p.Phase] == "" && !(replay && p.N == rc.CrashAt) {
@@ -676,7 +694,7 @@ func TestVerif_C01(t *testing.T) {
 				b, _ := strconv.Atoi(p.Phase[6:])
 				oldH, newH = b-1, b
 			}
-			if twoCrash && len(hist) == 3 && hi < 4 || (replay && rc.Second > 0) {
+			if twoCrash && !largeHist && len(hist) == 3 && hi < 4 || (replay && rc.Second > 0) {
 				// second crash: learn the observer's points on a copy, then crash at each of its first points
 				c01second(r, t, hbase, dir, refFile, ref, cs, oldH, newH, rc.Second)
 			}
